@@ -169,8 +169,8 @@ EdgeTab == Tabulated([t \in Types |->
 RightTab == Tabulated([t \in Types |-> IF ~Small(t) THEN {} ELSE IF Bits(t) <= 8 THEN Values(t) ELSE EdgeTab[t]])
 ClampTab == Tabulated([t \in Types |->
   IF ~Small(t) THEN {}
-  ELSE IF Bits(t) <= 6 THEN Values(t)
-  ELSE {x \in Values(t) : Abs(x) <= 12 \/ x >= Max(t) - 3 \/ x <= Min(t) + 3}])
+  ELSE IF Bits(t) <= 4 THEN Values(t)
+  ELSE {x \in Values(t) : Abs(x) <= 9 \/ x >= Max(t) - 3 \/ x <= Min(t) + 3}])
 Right(T) == RightTab[T]
 Left(T) == RightTab[T]
 ClampDom(T) == ClampTab[T]
